@@ -5,7 +5,7 @@ import common, plotds
 from plotds import DS, NAN, PINF, NINF, tok_out, finite, label, prettify
 
 PROP = 'C17'
-LEAN_MODULES = ['XyzProofs.Props.C17', 'XyzProofs.Props.C17Src']
+LEAN_MODULES = ['XyzProofs.Props.C17', 'XyzProofs.Props.C17Src', 'XyzProofs.Refine.PlotSrc']
 THEOREMS = ['PlotPrep.c17_series_count_order_labels', 'PlotPrep.c17_points', 'PlotPrep.c17_points_carried',
             'PlotPrep.c17_points_mem', 'PlotPrep.c17_mask_arrays', 'PlotPrep.c17_mask_ignores_carried',
             'PlotPrep.c17_point_kept_iff', 'PlotPrep.c17_all_nan_series_empty', 'PlotPrep.c17_hist_values',
@@ -16,7 +16,10 @@ THEOREMS = ['PlotPrep.c17_series_count_order_labels', 'PlotPrep.c17_points', 'Pl
             'PlotPrep.c17_src_genxy_series_per_z', 'PlotPrep.c17_src_genx_series_per_z', 'PlotPrep.c17_src_legend_refines',
             'PlotPrep.c17_src_legend_rule', 'PlotPrep.c17_src_zvals_refines', 'PlotPrep.c17_src_zvals_order',
             'PlotPrep.c17_src_zlabels_order', 'PlotPrep.c17_src_zlabels_given', 'PlotPrep.c17_src_labels_refine',
-            'PlotPrep.c17_src_loops_take_one_label']
+            'PlotPrep.c17_src_loops_take_one_label',
+            # the translated generators on the model's dataset operations = the model (XyzProofs/Refine/PlotSrc.lean)
+            'PlotPrep.genxy_coord_refines', 'PlotPrep.genxy_single_refines', 'PlotPrep.genxy_var_refines',
+            'PlotPrep.genxy_var_errors', 'PlotPrep.genx_refines', 'PlotPrep.c17_src_xy_refines']
 ANCHORS = ['maskIsBothFinite', 'maskArrays', 'vminDefaulted', 'vmaxDefaulted', 'autoLegend',
            'plZVals', 'plZLabels', 'plLegend', 'plGenXY', 'plGenX', 'plLoopNexts']
 RULE = ("each case = (explicit dataset: 1-4 dims of size 1-5 (up to 13 series in a boundary slice), numeric/str "
